@@ -234,10 +234,12 @@ def make_stub_ghe(evaluator: Evaluator, rec: Recorder):
             rec.add(kind="regen", n=self.nbh)
 
         def __getattr__(self, name):
-            # lenient stand-in: attributes a changed GHE.size might keep on the object read as None instead of raising
+            # lenient stand-in: class-level constants of the real GHE are inherited; instance attributes a changed
+            # GHE.size might keep on the object read as None instead of raising
             if name.startswith("__"):
                 raise AttributeError(name)
-            return None
+            v = getattr(GHE, name, None)
+            return None if callable(v) else v
 
     return StubGHE
 
